@@ -116,7 +116,7 @@ def api_graphs(ctx, nbuilds):
     for b in range(nbuilds):
         n = rng.choice([8, 20, 45, 90])
         dim = rng.choice([2, 3, 6])
-        k = rng.choice([2, 4, 7, 10])
+        k = rng.choice([2, 3, 4, 5, 7, 9, 10])      # with the multipliers below: products at x.5 of both parities (round-half-even matters)
         rs = np.random.RandomState(rng.randrange(10 ** 6))
         kind = rng.choice(["gauss", "ints", "dups", "line"])
         if kind == "gauss":
